@@ -456,14 +456,45 @@ func (i *interpreter) guardCheck(m *omap, write bool) {
 	if !ok {
 		return
 	}
-	mu := i.mutexOf(g.mu)
 	cur := i.sch.cur
+	what := "read"
+	if write {
+		what = "write"
+	}
+	if g.mu == nil {
+		// lockset inference: accesses by the main goroutine (set-up, final read-back after
+		// all others have finished) do not count
+		if cur.id == 0 {
+			return
+		}
+		held := map[*mutexObj]bool{}
+		for _, mu := range i.mutexList {
+			if mu.writer == cur || (!write && mu.readers[cur] > 0) {
+				held[mu] = true
+			}
+		}
+		ls := i.locksets[m]
+		if ls == nil {
+			ls = held
+		} else {
+			for mu := range ls {
+				if !held[mu] {
+					delete(ls, mu)
+				}
+			}
+		}
+		if i.locksets == nil {
+			i.locksets = map[*omap]map[*mutexObj]bool{}
+		}
+		i.locksets[m] = ls
+		if len(ls) == 0 {
+			i.ex.fail("race", g.id+"-"+what+"-without-common-lock", fmt.Sprintf("map %s by goroutine %d (%s): no mutex is held at every access to the shared map", what, cur.id, cur.name), i.ex.modelOrNil())
+		}
+		return
+	}
+	mu := i.mutexOf(g.mu)
 	okLock := mu.writer == cur || (!write && mu.readers[cur] > 0)
 	if !okLock {
-		what := "read"
-		if write {
-			what = "write"
-		}
 		i.ex.fail("race", g.id+"-"+what+"-without-lock", fmt.Sprintf("map %s by goroutine %d (%s) without the %s lock", what, cur.id, cur.name, map[bool]string{true: "write", false: "read/write"}[write]), i.ex.modelOrNil())
 	}
 }
